@@ -474,6 +474,16 @@ def extract_inst(w: World, rec: dict) -> dict:
             nodes.append({"uniq": n.unique_name, "graph": n.task_graph, "deadline": _t(n.deadline), "finish": fin})
             for p in g.get_parents(n):
                 edges.append([p.unique_name, n.unique_name])
+    # specification data only: what SCHEDULED tasks outside the call will occupy
+    widx = {wk.id: i for i, (_k, wk) in enumerate(rec["workers"].items())}
+    offered = {t.unique_name for t in tasks}
+    reserved = []
+    for _, task in w.task_list:
+        if task.state.name == "SCHEDULED" and task.unique_name not in offered:
+            cp = task.current_placement
+            s0 = _t(cp.placement_time)
+            for rn, q in _req(cp.execution_strategy).items():
+                reserved.append({"worker": widx.get(cp.worker_id, 0), "res": rn, "qty": q, "from": s0, "to": s0 + _t(cp.execution_strategy.runtime)})
     return {
         "now": w.now,
         "workers": jw,
@@ -481,6 +491,7 @@ def extract_inst(w: World, rec: dict) -> dict:
         "nodes": nodes,
         "edges": edges,
         "enforce_deadlines": w.spec["flags"]["enforce_deadlines"],
+        "reserved": reserved,
     }
 
 
@@ -1035,8 +1046,10 @@ def compare_case(w, rec, reply) -> list[str]:
             return [f"exception outcome differs: real={rec['err']} model={model}"]
         return []
     dis += diff_models(canon_real(rec["opt"]), canon_lean(reply))
-    if not reply["wf"]["names"]:
-        dis.append("offered unique names are not unique (Inst.wfNames = false)")
+    for k, what in (("names", "offered unique names are not unique"), ("avail", "an entry has more available than total"),
+                    ("states", "an offered task has started")):
+        if not reply["wf"][k]:
+            dis.append(f"extracted instance violates a hypothesis of the theorems: {what} (Inst.wf{k.capitalize()} = false)")
     real = real_decisions(w, rec)
     if rec["solved"]:
         if not reply.get("sat", False):
@@ -1048,7 +1061,7 @@ def compare_case(w, rec, reply) -> list[str]:
             dis.append(f"objective value real={ov} model={reply.get('objval')}")
         if not reply.get("precedence_ok", False):
             dis.append("decoded plan violates precedence among offered tasks (model side)")
-        if reply["wf"]["chains"] and reply["wf"]["single"] and not reply.get("capacity_ok", False):
+        if all(reply["wf"].values()) and not reply.get("capacity_ok", False):
             dis.append("decoded plan exceeds an available quantity although the instance is well-formed (model side)")
     else:
         if reply.get("decode_fail") != real:
